@@ -29,8 +29,6 @@ use crate::peers::{
 };
 use crate::script::{Config, EndKind, Step};
 
-pub const EMPTY_TIMEOUT: Duration = Duration::from_secs(5);
-
 fn nz(n: usize) -> NonZeroUsize {
     NonZeroUsize::new(n.max(1)).unwrap()
 }
@@ -66,6 +64,9 @@ pub struct ConsObs {
     pub alive_at_q: bool,
     /// Frames received up to the quiescent point.
     pub frames_at_q: usize,
+    /// If nobody was listening (in the harness' view: attached, reader not dropped) when this consumer
+    /// attached: for how many virtual milliseconds that had been so.
+    pub idle_ms_before_attach: Option<u64>,
 }
 
 #[derive(Clone)]
@@ -83,6 +84,10 @@ pub struct Obs {
     /// Panic messages of the runtime task / of harness tasks (Tokio catches them per task).
     pub runtime_panic: Option<String>,
     pub harness_panics: Vec<String>,
+    /// (ticket, virtual milliseconds since the start) after every `Settle` / `Advance` of the script.
+    pub quiet: Vec<(u64, u64)>,
+    /// Virtual milliseconds since the start at the quiescent point.
+    pub ms_at_q: u64,
 }
 
 struct Live {
@@ -95,6 +100,9 @@ struct Live {
     wtx: Option<mpsc::UnboundedSender<WOp>>,
     t_att: u64,
     accepted: bool,
+    idle_ms_before_attach: Option<u64>,
+    /// The harness has not dropped the reader.
+    listening: bool,
 }
 
 impl Live {
@@ -124,7 +132,7 @@ pub fn run_case(cfg: &Config, script: &[Step], rng: &mut Rng) -> Obs {
         let (stop_tx, stop_rx) = trigger::trigger();
         let address = IdentifiedAddress { identity: Uuid::from_u128(0xD0), address: RelativeAddress::text(NODE, LANE) };
         let config = DownlinkRuntimeConfig {
-            empty_timeout: EMPTY_TIMEOUT,
+            empty_timeout: Duration::from_millis(cfg.timeout_ms),
             attachment_queue_size: nz(cfg.att_queue),
             abort_on_bad_frames: true,
             remote_buffer_size: nz(cfg.cap_sock_out),
@@ -160,6 +168,11 @@ pub fn run_case(cfg: &Config, script: &[Step], rng: &mut Rng) -> Obs {
         let n = cfg.consumers.len();
         let mut live: Vec<Option<Live>> = (0..n).map(|_| None).collect();
         let mut stuck: Vec<String> = vec![];
+        let start = tokio::time::Instant::now();
+        let now_ms = move || start.elapsed().as_millis() as u64;
+        let mut quiet: Vec<(u64, u64)> = vec![];
+        // Since when nobody has been listening (harness' view).
+        let mut idle_since: Option<u64> = Some(0);
 
         for step in script {
             match step {
@@ -190,7 +203,23 @@ pub fn run_case(cfg: &Config, script: &[Step], rng: &mut Rng) -> Obs {
                     }
                     let t_att = ticket();
                     let accepted = att_tx.try_send(AttachAction::new((note_tx, cmd_rx), options)).is_ok();
-                    live[*c] = Some(Live { ctl, log, wlog, drop_signal, reader, writer, wtx: Some(wtx), t_att, accepted });
+                    let idle_ms_before_attach = idle_since.map(|t| now_ms().saturating_sub(t));
+                    if accepted {
+                        idle_since = None;
+                    }
+                    live[*c] = Some(Live {
+                        ctl,
+                        log,
+                        wlog,
+                        drop_signal,
+                        reader,
+                        writer,
+                        wtx: Some(wtx),
+                        t_att,
+                        accepted,
+                        idle_ms_before_attach,
+                        listening: accepted,
+                    });
                 }
                 Step::Cmd(c, cmd) => {
                     if let Some(l) = live[*c].as_mut() {
@@ -253,12 +282,30 @@ pub fn run_case(cfg: &Config, script: &[Step], rng: &mut Rng) -> Obs {
                 Step::LaneStallRead => set_stalled(&lane_ctl, true),
                 Step::LaneUnstallRead => set_stalled(&lane_ctl, false),
                 Step::LaneBudget(b) => gate.set(*b),
+                Step::LaneDropReader => lane_op(LaneOp::DropReader),
+                Step::LaneCloseWriter => lane_op(LaneOp::CloseWriter),
+                Step::Advance(ms) => {
+                    tokio::time::sleep(Duration::from_millis(*ms)).await;
+                    quiet.push((ticket(), now_ms()));
+                }
                 Step::Yield(k) => {
                     for _ in 0..*k {
                         tokio::task::yield_now().await;
                     }
                 }
-                Step::Settle => settle().await,
+                Step::Settle => {
+                    settle().await;
+                    quiet.push((ticket(), now_ms()));
+                }
+            }
+            if matches!(step, Step::DropReader(_) | Step::DropBoth(_)) {
+                let (Step::DropReader(c) | Step::DropBoth(c)) = step else { continue };
+                if let Some(l) = live[*c].as_mut() {
+                    l.listening = false;
+                }
+                if idle_since.is_none() && live.iter().flatten().all(|l| !l.listening) {
+                    idle_since = Some(now_ms());
+                }
             }
         }
 
@@ -273,6 +320,7 @@ pub fn run_case(cfg: &Config, script: &[Step], rng: &mut Rng) -> Obs {
         settle().await;
         settle().await;
         let q = ticket();
+        let ms_at_q = now_ms();
         let runtime_alive_at_q = !runtime.is_finished();
         let lane_idle_at_q = {
             let g = lane_log.lock();
@@ -326,7 +374,7 @@ pub fn run_case(cfg: &Config, script: &[Step], rng: &mut Rng) -> Obs {
                     LaneKind::Map => crate::peers::Ev::Upd(999, 0xffff_ffff),
                 }));
                 settle().await;
-                tokio::time::sleep(EMPTY_TIMEOUT * 3).await;
+                tokio::time::sleep(Duration::from_millis(cfg.timeout_ms * 3)).await;
             }
             settle().await;
             if let Some(h) = runtime.as_ref() {
@@ -365,6 +413,7 @@ pub fn run_case(cfg: &Config, script: &[Step], rng: &mut Rng) -> Obs {
                     writer_end: None,
                     alive_at_q: false,
                     frames_at_q: 0,
+                    idle_ms_before_attach: None,
                 });
                 continue;
             };
@@ -388,6 +437,7 @@ pub fn run_case(cfg: &Config, script: &[Step], rng: &mut Rng) -> Obs {
                 writer_end: w.end,
                 alive_at_q,
                 frames_at_q,
+                idle_ms_before_attach: l.idle_ms_before_attach,
             });
         }
         let lane = {
@@ -399,10 +449,12 @@ pub fn run_case(cfg: &Config, script: &[Step], rng: &mut Rng) -> Obs {
                 syncs: g.syncs.clone(),
                 reader_end: g.reader_end.clone(),
                 write_failed: g.write_failed,
+                reader_dropped: g.reader_dropped,
+                writer_closed: g.writer_closed,
                 pending_ops: g.pending_ops,
                 busy: g.busy,
             }
         };
-        Obs { cons, lane, q, runtime_alive_at_q, lane_idle_at_q, runtime_finished, stuck, runtime_panic, harness_panics }
+        Obs { cons, lane, q, runtime_alive_at_q, lane_idle_at_q, runtime_finished, stuck, runtime_panic, harness_panics, quiet, ms_at_q }
     })
 }
